@@ -7,7 +7,7 @@ MODEL_QUALID = "Model.Layers.run_script"
 FORMAT = (
     "first integer = mode. Real layer ids: 0 bulkhead 1 ratelimiter 2 circuitbreaker 3 retry 4 timelimiter "
     "5 cache 6 fallback 7 hedge 8 reconnect 9 adaptive 10 coalesce 11 executor 12 chaos(rates 0) "
-    "13 circuitbreaker.with_fallback 14 timelimiter(cancel_running_future=false). "
+    "13 circuitbreaker.with_fallback 14 timelimiter(cancel_running_future=false) 15 retry with zero backoff. "
     "mode 1 (readiness protocol, strict contract-checking wrapped service): [1; n; layer ids outermost first; k "
     "(extra attempts of retry/hedge/reconnect); nreq; oracle of the wrapped poll_ready: 0 Ready 1 Pending 2 Err...] "
     "-> per request 0 called / 1 readiness error at poll_ready / 2 readiness error inside the call / 3 never ready, "
@@ -53,12 +53,13 @@ ASSUMPTIONS = [
 ]
 
 NAMES = ["bulkhead", "ratelimiter", "circuitbreaker", "retry", "timelimiter", "cache", "fallback", "hedge",
-         "reconnect", "adaptive", "coalesce", "executor", "chaos", "cb_with_fallback", "timelimiter_nocancel"]
-ALL = list(range(15))
+         "reconnect", "adaptive", "coalesce", "executor", "chaos", "cb_with_fallback", "timelimiter_nocancel",
+         "retry_zero_backoff"]
+ALL = list(range(16))
 # discipline codes of Model/Layers.v: 0 Swap 1 Direct 2 Retry 3 Hedge 4 Reconnect
-DISC = {0: 0, 1: 0, 2: 0, 3: 2, 4: 0, 5: 1, 6: 0, 7: 3, 8: 4, 9: 1, 10: 1, 11: 0, 12: 0, 13: 0, 14: 0}
-SPECIAL = (3, 7, 8)
-LISTENER_LAYERS = [0, 1, 2, 3, 4, 5, 6, 7, 12, 13, 14]
+DISC = {0: 0, 1: 0, 2: 0, 3: 2, 4: 0, 5: 1, 6: 0, 7: 3, 8: 4, 9: 1, 10: 1, 11: 0, 12: 0, 13: 0, 14: 0, 15: 2}
+SPECIAL = (3, 7, 8, 15)
+LISTENER_LAYERS = [0, 1, 2, 3, 4, 5, 6, 7, 12, 13, 14, 15]
 NO_LISTENER_LAYERS = [8, 9, 10, 11]
 
 # the composition guide's stacks (crates/tower-resilience/src/composition.rs, tower_primer.rs), outermost first
@@ -420,7 +421,7 @@ def nontrivial(s, t):
 def classify(s, t):
     if s[0] == 1:
         n, ids, k, nreq, orc = parse1(s)
-        lab = ["mode1", "depth%d" % n, "k%d" % k] + ["L:" + NAMES[i] for i in sorted(set(ids)) if 0 <= i < 15]
+        lab = ["mode1", "depth%d" % n, "k%d" % k] + ["L:" + NAMES[i] for i in sorted(set(ids)) if 0 <= i < 16]
         if 1 in orc:
             lab.append("oracle:pending")
         if any(x not in (0, 1) for x in orc):
@@ -432,11 +433,11 @@ def classify(s, t):
         n = s[1]
         ids = s[2:2 + n]
         nreq = s[3 + n]
-        lab = ["mode0", "depth%d" % n, "inner%d" % s[2 + n]] + ["L:" + NAMES[i] for i in sorted(set(ids)) if 0 <= i < 15]
+        lab = ["mode0", "depth%d" % n, "inner%d" % s[2 + n]] + ["L:" + NAMES[i] for i in sorted(set(ids)) if 0 <= i < 16]
         kinds = set(s[5 + n + 3 * i] for i in range(nreq))
         lab += ["inner_ok" if x == 0 else "inner_err" for x in kinds]
         return sorted(set(lab))
-    lab = ["mode2", "L:" + NAMES[s[1]] if 0 <= s[1] < 15 else "L:?", "listeners%d" % s[2],
+    lab = ["mode2", "L:" + NAMES[s[1]] if 0 <= s[1] < 16 else "L:?", "listeners%d" % s[2],
            "panicking%d" % bin(s[3]).count("1")]
     return lab
 
